@@ -71,15 +71,15 @@ Section AttE.
   (** thread_list_.compare_exchange( old, rec ) succeeded: the record is on the list *)
   Lemma JA_publish g a h t l r old n1 :
     JA c g a h -> views a t = l -> va_unpub l = Some (r, (true, Some old)) -> va_hold l = None -> va_limbo l = None ->
-    tlist g = old -> hlen h <= n1 ->
+    va_help l = None -> tlist g = old -> hlen h <= n1 ->
     JA c (set_tlist g (Some r)) (upd_aux a t (with_unpub_hold l None (Some r)) (bown a))
          (mkH n1 (slotv h) (lastw h) (att h) (linked h) (scan h) (freeh h) (flbad h)).
   Proof.
-    intros J Hv Hu Hh Hlm Hold Hn. pose proof J as [J1 J2 J3 J4 J5 J6 J7 J8 J9 J10 J11 J12 J15 J16 J17 J18 J13 J14].
+    intros J Hv Hu Hh Hlm Hhp Hold Hn. pose proof J as [J1 J2 J3 J4 J5 J6 J7 J8 J9 J10 J11 J12 J15 J16 J17 J18 J13 J14].
     set (g' := set_tlist g (Some r)).
     destruct (views_unpub_hold a t l None (Some r) Hv) as (V & Vs & F).
     set (a' := upd_aux a t (with_unpub_hold l None (Some r)) (bown a)) in *.
-    rewrite <- Hv in Hu, Hh, Hlm. destruct (J5 t r _ Hu) as (Rlt & Ratt & Rnl & Rext & Rinfo & Runi).
+    rewrite <- Hv in Hu, Hh, Hlm, Hhp. destruct (J5 t r _ Hu) as (Rlt & Ratt & Rnl & Rext & Rinfo & Runi).
     unfold unpub_info in Rinfo. cbn in Rinfo. destruct Rinfo as (Rtid & Rnx).
     destruct J1 as (L & HL & HLnd). pose proof (Rnl L HL) as RnL.
     assert (Eg : forall r', grec g' r' = grec g r') by reflexivity.
@@ -118,7 +118,7 @@ Section AttE.
         split; [exact (J15 r Rlt)|]. intros _. exact Rext.
       + rewrite (V t' N) in Ht |- *. destruct (J6 t' r' Ht) as (X1&X2&X3&X4&X5&X6). repeat split; auto.
     - intros t' r' Ht. destruct (F t') as (_&E2&_). rewrite E2 in Ht. destruct (J7 t' r' Ht) as (X1&X2&X3). split; auto. split; auto.
-      destruct (Nat.eq_dec t' t) as [->|N]; [rewrite Vs; cbn; intros E; inversion E; subst r'; congruence|now rewrite (V t' N)].
+      destruct (Nat.eq_dec t' t) as [->|N]; [congruence|now rewrite (V t' N)].
     - intros r' Hr Ha. destruct (J8 r' Hr Ha) as [X|(t' & X1 & X2)]; [now left|right]. exists t'.
       destruct (F t') as (_&_&_&_&_&E6&_). rewrite E6. split; auto.
       destruct (Nat.eq_dec t' t) as [->|N]; [congruence|now rewrite (V t' N)].
